@@ -216,6 +216,9 @@ pub struct PrettyItem {
     pub excerpt: Option<String>,
     /// zero-based offset of the first caret inside the excerpt line and the number of carets
     pub carets: Option<(usize, usize)>,
+    /// the marker line as printed, behind the bar and one blank
+    #[serde(default)]
+    pub marker: Option<String>,
 }
 
 /// Pretty format:
@@ -264,6 +267,7 @@ pub fn parse_pretty(out: &str) -> Result<(Vec<PrettyItem>, usize), String> {
             },
             excerpt: None,
             carets: None,
+            marker: None,
         };
         // optional excerpt: three lines
         if k + 2 < lines.len() && lines[k].trim_start().starts_with('|') && lines[k].trim() == "|" {
@@ -281,6 +285,7 @@ pub fn parse_pretty(out: &str) -> Result<(Vec<PrettyItem>, usize), String> {
             let first = marks.iter().position(|c| *c == '^');
             let count = marks.iter().filter(|c| **c == '^').count();
             item.carets = first.map(|f| (f, count));
+            item.marker = Some(marks.iter().collect());
             item.excerpt = Some(text);
             k += 3;
         }
